@@ -33,10 +33,17 @@ RULE = ("cases come from random.Random(VERIF_SEED). runs: count tensors of order
         "ones with an empty slice, an all-zero fibre, a single non-zero; stored dense and sparse (sorted / "
         "shuffled); ranks 1..3; guesses uniform in [0.1,1] with exact zeros, all-zero rows, zero and non-unit "
         "weights; the three algorithms; iteration limits 1..3 from one start; inner limits 1..10; stoptol 1e-2 / "
-        "1e-4 / 1e-6; precompinds and inexact on/off; lbfgsMem 1..5; every run is made with printitn 0 (reference, replayed by the "
+        "1e-4 / 1e-6; precompinds and inexact on/off; lbfgsMem 1..5; epsActive 1e-8 (default) .. 10 and mu0 1e-5 (default) .. 10 "
+        "(options of the direction services); every run is made with printitn 0 (reference, replayed by the "
         "model) and again with printitn 1 (the default), 2 and 3 with stdout / logging captured. steps: the helpers of cp_apr.py "
         "and the ktensor normalisations on random non-negative models with zeros. validation: valid and malformed "
-        "requests with small exact values. formulas: every generated scalar definition of Generated/CpAprFormulas.lean "
+        "requests with small exact values, every kind under every printing interval; guesses with one or two surplus rows or "
+        "a missing row in the first / a middle / the last mode ENUMERATED over algorithm x dense / sparse, silent, 1 or 3 outer "
+        "iterations; whatever is returned must have the data's shape and the requested rank. longruns: Poisson counts "
+        "(constant rate 0.5 / 3 / 15 or planted) of order 2..3 with extents 2..5, rank 1..3, strictly positive guesses (3 of 4) "
+        "or guesses with zero rows / entries / weights, 5 / 10 / 25 outer iterations, inner limits 5 / 10 / 20, stoptol 1e-4 / "
+        "1e-6 / 1e-7 and the option space above; each on the dense and on the shuffled sparse storage of the same counts, sparse "
+        "with precompinds on AND off (pdnr / pqnr); no model run. formulas: every generated scalar definition of Generated/CpAprFormulas.lean "
         "on points mixing 0, +-1, 1/2, quarters, tiny and random values (counts and positive model values for the "
         "log-likelihood terms), against the Python expression the translator read. A case is non-trivial when the implementation returns a model after at "
         "least one outer iteration (runs), the compared arrays are non-empty (steps), or the request is accepted "
@@ -50,14 +57,27 @@ ASSUMPTIONS = [
     "row objective) -- or which agrees with the model only to 1e-5 with identical decision fields -- is instead "
     "validated one line search at a time, each from the implementation's own recorded state (tags "
     "rounding-tie / amplified-rounding); the implementation itself changes its answer by up to 1e-5 under a "
-    "1-ulp change of the guess in such runs",
+    "1-ulp change of the guess in such runs. A MU run in which some KKT value the implementation compared with "
+    "stoptol lies within relative 1e-9 of it (recorded at vectorize_for_mu; systematic when stoptol equals kappa, "
+    "the amount the fix-up adds to an entry) and which then disagrees with the model is accepted on the property "
+    "recomputed with numpy alone (tag rounding-tie)",
     "the search direction of PDNR / PQNR (get_search_dir_pdnr with its damping parameter, the L-BFGS bookkeeping "
     "and get_search_dir_pqnr) is a service: the theorems hold for every vector, the harness feeds the model the "
     "vectors the implementation used",
     "np.argsort of the final weights is a service returning a permutation; ties are compared up to the order of "
     "the tied components",
     "wall-clock stoptime, fnEvals / fnVals / nZeros / times and init='random' are not modelled; "
-    "precompinds only selects how the same index sets are computed",
+    "precompinds only selects how the same index sets are computed -- CHECKED on the implementation by the family "
+    "longruns: on sparse data the runs with precompinds on and off return bitwise the same",
+    "a call that RAISES is judged by the argument checks alone (driver op c11_validate_float on the very request): the "
+    "model's run is scripted with the directions the implementation used before it raised and cannot return when the "
+    "script ends early, so its not returning says nothing. A request the checks accept must be answered with a model "
+    "(runs, validation, longruns); the only listed exception is the fatal L-BFGS assertion of pqnr, and only where "
+    "the slot bookkeeping of the L-BFGS memory, replayed in the harness on the iterates the implementation itself "
+    "produced for that row (pairs from the recorded line searches, gradients recomputed with numpy), is fatal at the "
+    "same pair; raised elsewhere it is reported as a violation of its own",
+    "epsActive and mu0 enter only the direction services (get_search_dir_pdnr / _pqnr and the damping update); they "
+    "are passed to the implementation and do not appear in the model's configuration",
     "the model has no printing branch: what cp_apr returns (model, obj, kktViolations, nInnerIters, nViolations, "
     "iteration count) must not depend on printitn. This is CHECKED on the implementation for every run: the "
     "call is repeated with printitn 1, 2, 3 (output captured), must return / raise alike, satisfy the property "
@@ -266,9 +286,22 @@ TIE = 1e-9
 
 
 @contextlib.contextmanager
-def recording(alg, rec, calls=None, margins=True):
+def recording(alg, rec, calls=None, margins=True, stoptol=None):
     orig = C.tt_linesearch_prowsubprob
+    orig_vec = C.vectorize_for_mu
     primed = set()
+
+    def wrap_vec(matrix):
+        # MU compares `max |min(A, 1 - Phi)|` with stoptol after every update: the relative distance of that value
+        # from stoptol is the margin of the decision (the bump adds kappa to an entry, so stoptol == kappa puts KKT
+        # values within an ulp of the threshold by construction)
+        r = orig_vec(matrix)
+        if calls is not None and stoptol:
+            with np.errstate(all="ignore"):
+                v = float(np.max(np.abs(r))) if np.size(r) else 0.0
+            calls.append({"key": None, "mu": True, "margin": abs(v - stoptol) / stoptol if math.isfinite(v) else math.inf,
+                          "fallback": False, "evals": 0, "bcast": False})
+        return r
 
     def wrap(direction, grad, model_old, step_len, step_red, max_steps, suff_decr, isSparse, data_row, Pi,
              phi_row, display_warning):
@@ -286,6 +319,7 @@ def recording(alg, rec, calls=None, margins=True):
         if calls is not None:
             # noted BEFORE the call returns: a call that raises is still the last one of its row
             calls.append({"key": key, "prime": prime, "sparse": bool(isSparse),
+                          "bcast": bool(np.asarray(direction).size != R),
                           "x": np.array(data_row, dtype=float).reshape(-1).tolist(),
                           "Pi": np.array(Pi, dtype=float).tolist(), "m": m_old.tolist(), "d": d.tolist(),
                           "grad": np.array(grad, dtype=float).reshape(-1).tolist(),
@@ -303,10 +337,13 @@ def recording(alg, rec, calls=None, margins=True):
         return res
 
     C.tt_linesearch_prowsubprob = wrap
+    if alg == "mu":
+        C.vectorize_for_mu = wrap_vec
     try:
         yield
     finally:
         C.tt_linesearch_prowsubprob = orig
+        C.vectorize_for_mu = orig_vec
 
 
 @contextlib.contextmanager
@@ -433,7 +470,8 @@ def run_impl(case, maxiters, printitn=0, record=True, flags=None, margins=True):
     if flags is not None and case["alg"] != "mu" and \
             any(np.any(np.sum(np.asarray(f), axis=1) == 0) for f in guess.factor_matrices):
         flags["zero_row"] = True
-    with (recording(case["alg"], rec, calls, margins) if record else contextlib.nullcontext()), \
+    with (recording(case["alg"], rec, calls, margins, case["opts"]["stoptol"]) if record
+          else contextlib.nullcontext()), \
             (safeguard_watch(flags) if flags is not None else contextlib.nullcontext()), quiet():
         res = call(lambda: ttb.cp_apr(data, case["rank"], algorithm=case["alg"], init=guess, maxiters=maxiters,
                                       **kwargs_of(case, printitn)))
@@ -805,7 +843,9 @@ class Runs(Family):
                 if not tie and not amplified:
                     return v
                 if pending is None:
-                    firm = [cl for cl in calls if cl["margin"] >= TIE]
+                    # (a MU run with a KKT value within 1e-9 of stoptol has no line searches to validate: accepted
+                    # on the strength of the property recomputed above and tagged)
+                    firm = [cl for cl in calls if cl["margin"] >= TIE and not cl.get("mu")]
                     pending = (v, firm[:80], tags, "rounding-tie" if tie else "amplified-rounding")
             # likelihood never decreases from one outer iteration to the next (and from the guess to the
             # first) on runs whose safeguards were all inactive: C11_likelihood_monotone_mu / _pdnr / _pqnr
@@ -839,6 +879,10 @@ class Runs(Family):
             tags.append("has-tie-call")
         if any(cl["fallback"] for cl in allcalls):
             tags.append("ls-fallback")
+        if any(cl.get("bcast") for cl in allcalls):
+            # the line search was handed fewer numbers than the row has unknowns and numpy broadcast them (the model is
+            # fed the broadcast vector: the property holds for every direction); shown in the input distribution only
+            tags.append("broadcast-direction")
         if any(cl["evals"] > 2 for cl in allcalls):
             tags.append("ls-backtracked")
         if any(v > 0 for v in last_ok["nViol"]):
@@ -1213,6 +1257,107 @@ class Validation(Family):
         return out
 
 
+# ----------------------------------------------------------------------------
+# long runs over the whole option space, against the property recomputed with numpy (no model run)
+# ----------------------------------------------------------------------------
+def both_representations(X, rng):
+    """The same counts as a dense request and as a sparse one (stored order shuffled)."""
+    subs = [list(map(int, s)) for s in np.argwhere(X != 0)]
+    rng.shuffle(subs)
+    shape = [int(v) for v in X.shape]
+    return ({"shape": shape, "data": bd(X.flatten(order="F").tolist())},
+            {"shape": shape, "subs": subs, "vals": bd([float(X[tuple(q)]) for q in subs])})
+
+
+class LongRuns(Family):
+    """cp_apr run for 5..25 outer iterations (where the row sub-problems stall, the L-BFGS memory wraps and the
+    damping parameter has a history) on the same counts stored dense and sparse, over the whole option space; no
+    model run.  Checked: the call RETURNS (an admissible request is never answered with an exception; the fatal
+    L-BFGS assertion only where the reference bookkeeping on the row's own iterates is fatal too), everything the
+    property says about what is returned, recomputed with numpy, and that `precompinds` does not change a single bit
+    of the answer on sparse data (it selects how the same index sets are obtained)."""
+    name = "longruns"
+    theorems = ("C11_nonneg_returned", "C11_shape_rank", "C11_kkt_nonneg", "C11_kkt_length", "C11_iters_le",
+                "C11_objective_dense", "C11_objective_sparse", "C11_likelihood_not_worse")
+
+    def gen(self, rng, tier):
+        n = 45 if tier == "quick" else 300
+        out = []
+        for k in range(n):
+            N = rng.choice([2, 3, 3])
+            shape = [rng.randint(2, 5) for _ in range(N)]
+            R = rng.randint(1, 3)
+            rs = np_rng(rng)
+            lam = rng.choice([0.5, 3.0, 15.0])
+            if rng.random() < 0.5:
+                X = rs.poisson(lam, shape).astype(float)
+            else:
+                X = rs.poisson(full_np(np.full(R, lam * 2 ** N), [rs.uniform(0.05, 1.0, (q, R)) for q in shape])).astype(float)
+            if not X.any():
+                X[tuple(rng.randrange(q) for q in shape)] = rng.randint(1, 4)
+            tags = [f"rate{lam}"]
+            if rng.random() < 0.75:
+                init = {"weights": bd([1.0] * R), "factors": [bd(rs.uniform(0.1, 1.0, (q, R)).tolist()) for q in shape]}
+                tags.append("positive-guess")
+            else:
+                init, gt = gen_guess(rng, shape, R)
+                tags += gt
+            o = gen_opts(rng)
+            o["maxinneriters"] = rng.choice([10, 10, 20, 5])
+            o["stoptol"] = rng.choice([1e-4, 1e-4, 1e-6, 1e-7])
+            dense, sparse = both_representations(X, rng)
+            out.append({"alg": ("pqnr", "pdnr", "pqnr", "pdnr", "mu")[k % 5], "data": dense, "sdata": sparse, "rank": R,
+                        "init": init, "opts": o, "maxiters": rng.choice([5, 10, 10, 25]), "tags": tags})
+        return out
+
+    def evaluate(self, cases):
+        return [self.one(c) for c in cases]
+
+    def one(self, c):
+        alg, K = c["alg"], c["maxiters"]
+        o = c["opts"]
+        tags = [alg, f"N{len(c['data']['shape'])}", f"R{c['rank']}", f"maxiters{K}", f"inner{o['maxinneriters']}",
+                f"stoptol{o['stoptol']:g}"] + list(c.get("tags", []))
+        if alg != "mu":
+            tags.append(f"epsActive{o['epsActive']:g}")
+        if alg == "pdnr":
+            tags += [f"mu0{o['mu0']:g}", "inexact" if o["inexact"] else "exact"]
+        if alg == "pqnr":
+            tags.append(f"mem{o['lbfgsMem']}")
+        variants = [("dense", c["data"], o["precompinds"])]
+        variants += [("sparse", c["sdata"], True), ("sparse", c["sdata"], False)] if alg != "mu" else \
+            [("sparse", c["sdata"], o["precompinds"])]
+        got = {}
+        for rep, d, pre in variants:
+            cc = {**c, "data": d, "opts": {**o, "precompinds": pre}}
+            res, _, untouched, calls = run_impl(cc, K, record=(alg == "pqnr"), margins=False)
+            label = f" ({rep} data" + ("" if alg == "mu" else f", precompinds={pre}") + f", maxiters={K})"
+            if "ok" not in res:
+                return raised_verdict(cc, res, calls, tags + [rep], label)
+            what = property_violation(cc, K, res["ok"], untouched)
+            if what:
+                return Verdict("violation", what + label, res["ok"], None, None, tags + [rep])
+            got[(rep, pre)] = res["ok"]
+        if alg != "mu":
+            a, b = got[("sparse", True)], got[("sparse", False)]
+            for key in ("weights", "factors", "obj", "kkt", "nInner"):
+                if not (a[key] == b[key] or max_rel_diff(a[key], b[key]) == 0.0):
+                    return Verdict("violation", f"sparse data: precompinds=False changes what is returned ({key}: "
+                                   f"{b[key]!r} instead of {a[key]!r}), though it only selects how the index sets of "
+                                   "the rows are obtained", a, None, b, tags + ["precompinds"])
+        r = got[("dense", o["precompinds"])]
+        tags.append("converged" if len(r["kkt"]) < K else "limit")
+        return Verdict("ok", "", {"iters": len(r["kkt"]), "obj": r["obj"]}, None, None, tags, True)
+
+    def shrink(self, case):
+        if case["maxiters"] > 1:
+            yield {**case, "maxiters": case["maxiters"] // 2}
+            yield {**case, "maxiters": case["maxiters"] - 1}
+        o = case["opts"]
+        if o["maxinneriters"] > 1:
+            yield {**case, "opts": {**o, "maxinneriters": o["maxinneriters"] // 2}}
+
+
 class Formulas(Family):
     """Cross-check of the translator (harness/translate/gen_cpapr.py): every generated scalar definition, evaluated by
     the driver at Float with the services the model hands to it, against `eval` of the Python expression the
@@ -1272,4 +1417,4 @@ class Formulas(Family):
 
 
 def families():
-    return [Runs(), Steps(), Validation(), Formulas()]
+    return [Runs(), Steps(), Validation(), LongRuns(), Formulas()]
